@@ -28,7 +28,7 @@ func c11(c *eng.Ctx, r *eng.Report) {
 		"R11.11 a precompile runs only after the caller paid for it, and the price compared with the supplied gas is RequiredGas(input) itself — no unchecked arithmetic between pricing and the affordability test (the precompiles size their allocations from the input on the strength of that price: MODEXP allocates what the header announces); " +
 		"R11.20 the interpreter looks at the stack only after it has validated its depth: every Stack accessor call in (*EVMInterpreter).Run (Back, peek, pop) is dominated by the false edge of `sLen < operation.minStack` — the read-only check reads stack.Back(2) for CALL, and ahead of the validation a CALL with fewer than three items in a static frame panics instead of failing with ErrStackUnderflow; " +
 		"R11.22 the memory size is rounded to words without wrapping: in Run the value handed to dynamicGas and Memory.Resize is the product of an overflow-reporting multiplication (utility.SafeMul) whose overflow edge leaves the frame — toWordSize(size)·32 wraps to 0 for a size in [2^64−31, 2^64−1], nothing is charged or resized, and the opcode body indexes an empty store; " +
-		"R11.23 a precompile's price lookup stays inside its table: every index of the form k−1 into a package-level table in contracts.go is computed only where k != 0 has been established in the same function — a pair count of 0 (input shorter than one pair) otherwise reads table[−1] and panics before Run can refuse the length; " +
+		"R11.23 a precompile's price lookup stays inside its table: every index of the form k−1 into a package-level table in contracts.go is computed only where k != 0 has been established — in the same function, or for the argument at every call site when k is a parameter — a pair count of 0 (input shorter than one pair) otherwise reads table[−1] and panics before Run can refuse the length; " +
 		"R11.21 a call-family gas function that succeeds has set the gas it forwards: every nil-error return of a dynamic-gas function that stores evm.callGasTemp is preceded on every path by that store — the field is EVM-wide, and a fast path that skips the store makes opCall forward what the previous call-family instruction left there: gas the caller never paid for, returned to it afterwards, so gas grows inside a frame; " +
 		"R11.19 a zero-length memory operand touches nothing: in every Memory accessor that takes a size (Set, GetCopy, GetPtr, Copy) each slice expression over the backing store is dominated by the test that the size is non-zero — a zero-length range has memory size 0 whatever its offset, so nothing has bounded the offset (LOG0 or CREATE with offset 2^63 and size 0 reach GetCopy with a negative offset); " +
 		"R11.18 the fixed-width word setters get the bytes they read: every (*uint256.Int).SetBytesN(b) call in the vm package (SetBytes32 reads b[31] unconditionally) is handed a slice whose length is statically at least N — a slice of an array of N or more bytes, or a make of constant length; finding F28: BLOBHASH called SetBytes32 with an empty slice and PUSH1 0, BLOBHASH panicked through EVM.Call; " +
@@ -1867,25 +1867,46 @@ func c11TableIndexGuarded(c *eng.Ctx, r *eng.Report) {
 				n++
 				key := fmt.Sprintf("table-index:%s#%d", eng.FuncName(fn), i)
 				i++
-				guarded := false
-				for _, cd := range eng.EdgeConds(b) {
-					m, isM := cd.Cmp()
-					if !isM {
-						continue
-					}
-					x, y, op := m.X, m.Y, m.Op
-					if eng.ResolveLocal(y) == eng.ResolveLocal(base) {
-						x, y = y, x
-						if op == token.LSS {
-							op = token.GTR
+				nonZeroAt := func(conds []eng.Cond, v ssa.Value) bool {
+					for _, cd := range conds {
+						m, isM := cd.Cmp()
+						if !isM {
+							continue
+						}
+						x, y, op := m.X, m.Y, m.Op
+						if eng.ResolveLocal(y) == eng.ResolveLocal(v) {
+							x, y = y, x
+							if op == token.LSS {
+								op = token.GTR
+							}
+						}
+						if eng.ResolveLocal(x) != eng.ResolveLocal(v) {
+							continue
+						}
+						if kk, isKK := eng.ConstInt(y); isKK && ((kk == 0 && (op == token.NEQ || op == token.GTR)) || (kk >= 1 && op == token.GEQ)) {
+							return true
 						}
 					}
-					if eng.ResolveLocal(x) != eng.ResolveLocal(base) {
-						continue
+					return false
+				}
+				guarded := nonZeroAt(eng.EdgeConds(b), base)
+				// a helper whose count is a parameter: every caller has established it for the argument it passes
+				if prm, isP := eng.ResolveLocal(base).(*ssa.Parameter); isP && !guarded {
+					idx := -1
+					for pi, pp := range fn.Params {
+						if pp == prm {
+							idx = pi
+						}
 					}
-					if kk, isKK := eng.ConstInt(y); isKK && ((kk == 0 && (op == token.NEQ || op == token.GTR)) || (kk >= 1 && op == token.GEQ)) {
-						guarded = true
+					callers := c.Callers(fn)
+					all := idx >= 0 && len(callers) > 0
+					for _, site := range callers {
+						call, isCall := site.Instr.(ssa.CallInstruction)
+						if !isCall || idx >= len(call.Common().Args) || !nonZeroAt(eng.CondsAt(site.Instr), call.Common().Args[idx]) {
+							all = false
+						}
 					}
+					guarded = all
 				}
 				r.Check(guarded, rule, key, c.Pos(ia.Pos()), "the index k−1 is computed only where k != 0 holds", eng.FuncName(fn)+" reads "+g.Name()+"["+eng.Desc(bo.X)+" − 1] without having established in this function that "+eng.Desc(bo.X)+" is non-zero: for a count of 0 — a precompile called with less input than one element — the index is −1, the lookup panics, and the panic unwinds through EVM.Call instead of the call failing for its bad input length")
 			}
